@@ -2,7 +2,7 @@
 from checks_common import three
 
 CHECK = {
-    "runs": three("c07_executor", [], scales=(0.5, 0.5, 1.0)) +
+    "runs": three("c07_executor", [], scales=(0.5, 0.5, 1.0), args_thorough=["--grace", "90"]) +
             # sustained local spawning against a continuously sweeping balance thread (own processes); added after
             # the seeded change C07-a2 escaped the general episodes
             three("c07_executor", [], scales=(0.25, 0.25, 1.0), mode="storm"),
